@@ -241,6 +241,40 @@ def run_waits(ctx, desc):
             ctx.inconc(f"emcy.wait after stale: {status}", {"kind": "stale"})
         elif status != "returned" or val is not None:
             ctx.violation("emcy-wait-satisfied-by-earlier-frame", f"a frame arrived before the wait and nothing after, wait() ended {status} with {val!r}", {"kind": "stale"})
+        # 3c. several callers wait at once (one unfiltered, one filtered): one frame serves them all
+        code2 = rng.choice([0x3210, 0x8130, 0x0000])
+        res = waits.run_waiters([lambda: node.emcy.wait(None, 4), lambda: node.emcy.wait(code2, 4), lambda: node.emcy.wait(None, 4)],
+                                cond, lambda: send(code2, 9))
+        ctx.count("wait_cases")
+        ctx.case(("wait-several-waiters", hex(code2)))
+        for i, (status, val) in enumerate(res):
+            if status in ("hung", "never-waited"):
+                ctx.inconc(f"emcy.wait with several waiters: {status}", {"kind": "several", "waiter": i})
+            elif status == "not-woken":
+                ctx.violation("waiter-not-woken:several-waiters", f"waiter {i} of 3 was not woken by the frame that arrived while it waited", {"kind": "several", "waiter": i})
+            elif status != "returned" or val is None or val.code != code2 or val.register != 9:
+                ctx.violation("emcy-wait-several-waiters", f"waiter {i} of 3 ended {status} with {val!r} after frame {code2:#x}", {"kind": "several", "waiter": i})
+        # 3d. a matching frame that arrives after the caller's deadline is not handed out any more
+        if rnd == 0:
+            import time as _t
+            T = 0.8
+            entered = {}
+
+            def late_delivery():
+                entered["t"] = _t.time()
+                n = cond.waits
+                _t.sleep(0.5 * T)
+                send(0x1111)                      # a non-matching frame before the deadline restarts the condition wait
+                cond.reentered(n, 1.0)
+                _t.sleep(max(0.0, entered["t"] + 1.25 * T - _t.time()))
+                send(0x2222, 5)                   # the matching frame, but later than the caller was willing to wait
+            status, val = waits.run_waiter(lambda: node.emcy.wait(0x2222, T), cond, late_delivery, grace=3 * T + 2)
+            ctx.count("wait_cases")
+            ctx.case(("wait-deadline",))
+            if status in ("hung", "never-waited", "not-woken"):
+                ctx.inconc(f"emcy.wait deadline: {status}", {"kind": "deadline"})
+            elif status != "returned" or val is not None:
+                ctx.violation("emcy-wait-after-deadline", f"wait(0x2222, {T}) returned {val!r} for a frame that arrived {1.25 * T:.2f} s after the call started", {"kind": "deadline"})
         # 4. only non-matching frames: None
         status, val = waits.run_waiter(lambda: node.emcy.wait(0x1234, 0.05), cond, lambda: send(0x4321))
         ctx.count("wait_cases")
